@@ -338,6 +338,7 @@ func setMaxStack() {}
 // genCall: one scenario, executed `reps` times on the real library (fresh map orders each time).
 func genCall(w *bufio.Writer, r *rng, id int, c genCfg, reps int, kind string) {
 	sc := genScenario(r, c)
+	sc.multiConv(r)
 	emitCall(w, sc, id, reps, kind, "")
 }
 
@@ -352,8 +353,20 @@ func emitCall(w *bufio.Writer, sc *scenario, id, reps int, kind, extra string) {
 		fmt.Fprintf(w, "run %d\n", rep)
 		w.Flush()
 		if rep > 0 {
-			// fresh function objects for every run: memo cells and execution counters start empty
-			if err := sc.buildAll(); err != nil {
+			// fresh function objects for every run: memo cells and execution counters start empty — except that every
+			// other run of a scenario without run-once functions is made on the objects of the run before (a plain
+			// function object carries nothing from one call to the next), with the counters reset
+			reuse := rep%2 == 1
+			for _, f := range sc.Funcs {
+				if f.Once {
+					reuse = false
+				}
+			}
+			if reuse {
+				for _, f := range sc.Funcs {
+					f.execs = 0
+				}
+			} else if err := sc.buildAll(); err != nil {
 				fmt.Fprintf(w, "res builderr\n")
 				continue
 			}
@@ -365,7 +378,7 @@ func emitCall(w *bufio.Writer, sc *scenario, id, reps int, kind, extra string) {
 	fmt.Fprintf(w, "end\n")
 	// every third scenario: probes that involve a second function object or option-less calls
 	if id%3 == 0 && kind == "call" {
-		fmt.Fprintf(w, "scn probe %d\nsibling %s\nbare %s\npassthru %s\nend\n", id, siblingProbe(sc, sc.callArgs(false)), bareProbe(sc), passthruProbe())
+		fmt.Fprintf(w, "scn probe %d\nsibling %s\nbare %s\npassthru %s\ntwinsets %s\nend\n", id, siblingProbe(sc, sc.callArgs(false)), bareProbe(sc), passthruProbe(), twinSetsProbe())
 	}
 	w.Flush()
 }
@@ -555,6 +568,13 @@ func genHopeless(r *rng, c genCfg) *scenario {
 		dead.Sub = []string{"pkg%2FMessage", "100%d", "%s"}[r.intn(3)]
 	}
 	t.Ins = append(t.Ins, dead)
+	if (t.Form == "struct" || t.Form == "ptr") && r.chance(1, 5) {
+		// a further parameter with an exactly matching value whose name is not ASCII: it must never be listed
+		// (declared through a struct tag: the model's case folding is ASCII only, so no form that upper-cases names)
+		x := lab{Name: "äpfel", Ty: r.intn(4)}
+		t.Ins = append(t.Ins, x)
+		sc.Opts = append(sc.Opts, optSpecC{Kind: "named", Name: x.Name, Ty: x.Ty, Vid: 4003 + 4*r.intn(3)})
+	}
 	switch r.intn(4) {
 	case 3: // mutual multi-input cycle: f(X, 8) -> 9, g(9, X) -> 8, X supplied
 		x := lab{Ty: r.intn(4)}
@@ -830,6 +850,13 @@ func (sc *scenario) gensify(r *rng) {
 func genMalformed(r *rng, c genCfg) *scenario {
 	sc := genScenario(r, c)
 	sc.Defaults = 0
+	if r.chance(1, 4) {
+		// a target that needs nothing: the options are examined (and generators consulted) all the same
+		sc.Funcs[0].Ins = nil
+		if sc.Funcs[0].Form == "built" {
+			sc.Funcs[0].Form = "pos"
+		}
+	}
 	kinds := []string{"nil", "convnil", "convnil", "convbad", "convbad", "genfail", "genfail", "genfail", "gennil", "gennil", "namednil", "gennilfunc", "gennilfunc", "loggernil"}
 	o := optSpecC{Kind: kinds[r.intn(len(kinds))], Name: "a"}
 	pos := r.intn(len(sc.Opts) + 1)
